@@ -238,6 +238,16 @@ def c_string(ctx, case):
             ctx.fail("C07.string", case, f"importer-modified-ast:{_opsig(s)}",
                      f"{s!r}: importing Python's ast changed it: {before} became {ast.dump(node)}; "
                      f"first import {imp!r}, second import of the same object {imp2!r}")
+        # Python's ast with ONE node object wherever the string has equal sub-expressions (what
+        # ast.NodeTransformer substitution produces; for compile() it is the same expression)
+        shared, nshared = _interned(ast.parse(s, mode="eval"))
+        if nshared:
+            ctx.count("importer_ast_with_shared_nodes")
+            imp3 = ASTToPymbolic()(shared.body)
+            if not normal.typed_eq(imp, imp3):
+                ctx.fail("C07.string", case, f"importer-shared-ast-nodes:{_opsig(s)}",
+                         f"{s!r}: from Python's ast the importer gives {imp!r}; from the same ast with "
+                         f"equal sub-expressions represented by one node object it gives {imp3!r}")
     except NotImplementedError:
         ctx.count("importer_refused")
         if not importer_may_refuse(s):
@@ -261,6 +271,25 @@ def c_string(ctx, case):
                  f"{short(bad[1])}")
     elif tree is not None and _struct(tree) != _struct(imp) and not has_chain(s):
         ctx.count("parser_importer_trees_differ_but_agree_in_value")
+
+
+def _interned(tree):
+    """the ast with structurally equal expression nodes (operands, not operators or contexts)
+    replaced by the first of them; how many nodes were replaced"""
+    seen = {}
+    n = [0]
+
+    class Intern(ast.NodeTransformer):
+        def generic_visit(self, node):
+            node = super().generic_visit(node)
+            if isinstance(node, ast.expr) and not isinstance(node, (ast.Constant,)):
+                k = ast.dump(node)
+                if k in seen:
+                    n[0] += 1
+                    return seen[k]
+                seen[k] = node
+            return node
+    return Intern().visit(tree), n[0]
 
 
 def _has_imag(s):
@@ -594,6 +623,17 @@ def workload(ctx):
                 ctx.sample("random-string", s)
             ctx.count("random_strings")
             ctx.run("C07.string", (s, ctx.seed))
+        # equal sub-expressions at both ends of comparisons, chains, calls and conditionals
+        for u in ("a + b", "a * 2", "f(a)", "m[1]", "a", "-a", "(a if b else c)", "a ** 2"):
+            for shape in ("a < {u} <= b", "{u} <= b != {u}", "a < {u} <= {u}", "{u} == {u}", "a * {u} < {u}",
+                          "({u} < b) + (a < {u})", "{u} * {u} - ({u} - b) // ({u} * {u} + 1)",
+                          "f({u}, {u}, k={u})", "{u} if {u} < {u} else {u}", "{u} < {u} < {u} < {u}",
+                          "m[{u}, {u}]", "({u}, {u})", "{u} and {u} or not {u}"):
+                s = shape.replace("{u}", u)
+                if ctx.mine("repeated-operands"):
+                    ctx.case(("s", s), True, n=0)
+                    ctx.count("repeated_operand_strings")
+                    ctx.run("C07.string", (s, ctx.seed))
         for s in GARBAGE:
             if ctx.mine("garbage"):
                 ctx.case(("g", s), True, n=0)
@@ -624,6 +664,7 @@ def workload(ctx):
         for k, v in tr.handlers("parse").items():
             ctx.count("handler:" + k, v)
     ctx.floor("respelled:dense", 500)
+    ctx.floor("importer_ast_with_shared_nodes", 300)
     ctx.floor("respelled:wide", 500)
     ctx.floor("rejected_between_valid", 500)
     ctx.floor("read_refuse_read_again", 30)
